@@ -9,6 +9,30 @@ from .genprobe import *
 PID = "C16"
 
 
+ALIAS_WORLDS = ["""package t:al;
+interface other { resource a { constructor(); get: func() -> u32; } }
+interface i {
+  use other.{a};
+  resource r0 { constructor(); plain: func(); }
+  type b = r0;
+  record rec { x: borrow<b>, y: u32 }
+  f: func(x: list<borrow<a>>) -> u32;
+  g: func(x: list<borrow<b>>, y: option<borrow<b>>, z: tuple<borrow<a>, u8>) -> u32;
+  h: func(x: b, y: a) -> b;
+  k: func(x: list<rec>, y: result<borrow<a>, string>);
+  l: func(x: list<b>, y: option<a>) -> list<a>;
+}
+world w { import other; import i; export i; }
+""", """package t:al2;
+interface types { resource a { constructor(); } type c = a; }
+world w {
+  use types.{a, c};
+  import f: func(x: list<borrow<a>>, y: borrow<c>) -> u32;
+  export g: func(x: list<borrow<c>>, y: list<borrow<a>>, z: option<c>) -> u32;
+}
+"""]
+
+
 def run(tier):
     t0 = time.time()
     wd = workdir(PID)
@@ -17,8 +41,16 @@ def run(tier):
     g, worlds = grammar_worlds(wd, full=(tier == "thorough"), k=0 if tier == "quick" else 5)
     wdir = os.path.join(wd, "worlds")
     paths = write_worlds(worlds, wdir)
+    # resources reached through an alias (`type b = r0;`, `use other.{a};`): own and borrow of the alias in every container
+    # position (generated worlds only name resources directly)
+    extra = []
+    for n, wit in enumerate(ALIAS_WORLDS):
+        d = os.path.join(wdir, f"alias-{n}")
+        os.makedirs(d, exist_ok=True)
+        open(os.path.join(d, "w.wit"), "w").write(wit)
+        extra.append(os.path.join(d, "w.wit"))
     # corpus too (it is what the repository's own exclusions are keyed by)
-    corpus = corpus_files()
+    corpus = extra + corpus_files()
     feats = wit_features(paths + corpus)
     invalid = [p for p in paths if "error" in feats[p]]
     if len(invalid) > len(paths) // 50:
